@@ -380,7 +380,7 @@ def r16f(chk, rid='R16.f'):
 
 
 def r16g(chk, rid='R16.g'):
-    chk.rule(rid, 'a reported selector error makes the selector ill-formed: in every handler the selector state machine registers (New.productions) and in New.append, every path from the entry to a return that passes an error report (self._log.error) also passes `self.wellformed = False` - a selector that logged a syntax error in logging mode is dropped together with its list and rule, it is not kept in a repaired form')
+    chk.rule(rid, 'a reported selector error makes the selector ill-formed: in every method of the selector state machine (the handlers New.productions registers, New.append and any helper they share), every path from the entry to a return that passes an error report (self._log.error) also passes `self.wellformed = False` - a selector that logged a syntax error in logging mode is dropped together with its list and rule, it is not kept in a repaired form')
     from .callbacks import new_productions
 
     m = chk.repo.mod(SEL)
@@ -388,7 +388,10 @@ def r16g(chk, rid='R16.g'):
     for cb in new_productions(chk.repo):
         if isinstance(cb.target, ast.FunctionDef):
             fns[cb.target.name] = cb.target
-    fns['append'] = m.get('New.append')
+    # ... and every other method of the helper class (append, shared error helpers)
+    for st in m.get('New', ast.ClassDef).body:
+        if isinstance(st, ast.FunctionDef) and not any(text(d) == 'property' for d in st.decorator_list):
+            fns.setdefault(st.name, st)
     n = 0
     for name, fn in sorted(fns.items()):
         g = cfgmod.CFG(fn)
@@ -403,6 +406,6 @@ def r16g(chk, rid='R16.g'):
                 ok = EXIT_RET not in after
             chk.ob(rid, SEL, f'New.{name}', f'`{text(e.stmt)[:60]}` comes with wellformed = False on every path', ok,
                    'a path reports the error and returns with the selector still well-formed: in logging mode the damaged selector is kept (its text differs from the source) instead of being dropped with its rule', trivial=True)
-    if n < 12:
-        raise AnalysisError(f'only {n} error reports found in the selector handlers (12+ confirmed by hand)')
+    if n < 4:
+        raise AnalysisError(f'only {n} error reports found in the selector handlers (18 on the pinned tree; a shared helper may hold most of them)')
     chk.extra['selector_error_reports'] = n
